@@ -108,6 +108,8 @@ type Exec struct {
 	kept      []retained
 	Sched     *Sched // set when goroutines are under schedule control (C16 / C15)
 	Global    wire.Parameters
+	TLS       *tls.Config // the configuration handed to the server (the user's object) ...
+	tlsSnap   *tls.Config // ... and a copy taken before the server saw it
 	ctxMu     sync.Mutex
 	lastCtx   map[int]context.Context // per connection: context of the command whose callback ran last
 	prevCtx   map[int]context.Context // per connection: context of the command before that one
@@ -217,6 +219,7 @@ func NewExec(cfg M) (*Exec, error) {
 			tc.MinVersion = tls.VersionTLS12
 		}
 		opts = append(opts, wire.TLSConfig(tc))
+		x.TLS, x.tlsSnap = tc, tc.Clone()
 	}
 	srv, err := wire.NewServer(x.parse, opts...)
 	if err != nil {
@@ -228,6 +231,21 @@ func NewExec(cfg M) (*Exec, error) {
 	x.Srv = srv
 	go func() { x.served <- srv.Serve(x.Lis) }()
 	return x, nil
+}
+
+// TLSIntact: the TLS configuration the user handed to the server is as the user made it (it is the user's object,
+// shared by every connection: serving reads it).
+func (x *Exec) TLSIntact() bool {
+	if x.TLS == nil {
+		return true
+	}
+	a, b := x.TLS, x.tlsSnap
+	return a.MinVersion == b.MinVersion && a.MaxVersion == b.MaxVersion && a.ClientAuth == b.ClientAuth &&
+		len(a.Certificates) == len(b.Certificates) && len(a.NextProtos) == len(b.NextProtos) &&
+		len(a.CipherSuites) == len(b.CipherSuites) && len(a.CurvePreferences) == len(b.CurvePreferences) &&
+		a.ServerName == b.ServerName && a.InsecureSkipVerify == b.InsecureSkipVerify &&
+		a.SessionTicketsDisabled == b.SessionTicketsDisabled && a.ClientCAs == b.ClientCAs &&
+		(a.GetCertificate == nil) == (b.GetCertificate == nil) && (a.GetConfigForClient == nil) == (b.GetConfigForClient == nil)
 }
 
 // EffLimit is the message limit in force (the library default for a
